@@ -18,7 +18,8 @@ package main
 //               of each order in a really fresh process;
 //   - "poison": once in a process whose first interpreter did something that is
 //               hostile to the process-wide tables ((struct int64 ...), (derefSet
-//               (& int64) string)); fixed probes and walks only;
+//               (& int64) string), a struct named like a Go-registered type); fixed
+//               probes and walks only;
 //   - the "nodemo" cases run in processes whose host has NOT registered the demo Go
 //     types, and (registerDemoFunctions) is among their polluters.
 // Next to each observation the run records the facts about the process it ran in that
@@ -46,13 +47,13 @@ import (
 )
 
 type determCase struct {
-	ID   string     `json:"id"`
-	Src  string     `json:"src"`
-	Text string     `json:"text"`
-	Reps int        `json:"reps,omitempty"` // runs of the in-process sequence (default 4)
-	Obs  []any      `json:"obs"`            // one observation per run: [kind, printed-or-error, stdout]
-	Runs []string   `json:"runs"`           // where each run happened: "seq0".., "proc-fwd", "poison1", ...
-	Pre  [][]string `json:"pre"`            // per run: facts about the process before the run (see preFacts)
+	ID   string       `json:"id"`
+	Src  string       `json:"src"`
+	Text string       `json:"text"`
+	Reps int          `json:"reps,omitempty"` // runs of the in-process sequence (default 4)
+	Obs  []any        `json:"obs"`            // one observation per run: [kind, printed-or-error, stdout]
+	Runs []string     `json:"runs"`           // where each run happened: "seq0".., "proc-fwd", "poison1", ...
+	Pre  [][][]string `json:"pre"`            // per run: facts about the process before the run (see preFacts)
 }
 
 // A Go struct family registered under two names each, exactly as the library's
@@ -107,7 +108,7 @@ var showRes = []*regexp.Regexp{
 }
 var showRepl = []string{" (0xSHOW)", "env(0xSHOW)", "already-saw $1 0xSHOW"}
 
-var ampRe = regexp.MustCompile(`(^|[\s({\[])&[A-Za-z]`)                                // the reader's &a
+var ampRe = regexp.MustCompile(`(^|[\s({\[])&[A-Za-z]`)                          // the reader's &a
 var ptrTypeRe = regexp.MustCompile(`(\(var\s+\S+\s+|\(def\s+\S+\s+|:\s*)\(\*\s`) // a variable or field of a pointer type (* T)
 
 func usesPointerFns(text string) bool {
@@ -144,12 +145,14 @@ func sha8(s string) string { return fmt.Sprintf("%x", sha256.Sum256([]byte(s)))[
 
 // preFacts: what the process holds, before the run, of the things a named deviation speaks about.
 //
-//	T:<name>:<digest>  a struct declaration of <name> made by a script of an EARLIER interpreter, when the
-//	                   program uses <name> and does not itself declare (struct <name> ...)
-//	L:<digest>         the registered-type list, when the program asks for it (typelist)
-//	G:<digest>         the Go types registered since the process started (by a script: registerDemoFunctions)
-func preFacts(text string) []string {
-	facts := []string{}
+//	["T", name, digest]  a struct declaration of <name> made by a script of an EARLIER interpreter, when the
+//	                     program uses <name> and does not itself declare (struct <name> ...)
+//	["L", digest, ""]    the registered-type list, when the program asks for it (typelist)
+//	["R", digest, ""]    the Go-registered types that a script of an earlier interpreter has replaced by a struct of
+//	                     its own (new interpreters no longer import them)
+//	["G", digest, ""]    the Go types registered since the process started (by a script: registerDemoFunctions)
+func preFacts(text string) [][]string {
+	facts := [][]string{}
 	mention := map[string]bool{}
 	for _, w := range identRe.FindAllString(text, -1) {
 		mention[w] = true
@@ -166,18 +169,31 @@ func preFacts(text string) []string {
 			}
 			continue
 		}
+		if _, builtin := zygo.GoStructRegistry.Builtin[name]; builtin {
+			continue // a struct named like a builtin type: the builtin values keep their builtin type
+		}
 		if rt.UserStructDefn != nil && mention[name] && !own[name] {
-			facts = append(facts, "T:"+name+":"+sha8(rt.UserStructDefn.SexpString(nil)))
+			facts = append(facts, []string{"T", name, sha8(rt.UserStructDefn.SexpString(nil))})
 		}
 	}
 	if strings.Contains(text, "typelist") {
-		facts = append(facts, "L:"+sha8(strings.Join(zygo.ListRegisteredTypes, ",")))
+		facts = append(facts, []string{"L", sha8(strings.Join(zygo.ListRegisteredTypes, ",")), ""})
+	}
+	var goLost []string
+	for name := range goBase {
+		if rt := zygo.GoStructRegistry.Userdef[name]; rt == nil || !goRegistered(rt) {
+			goLost = append(goLost, name)
+		}
+	}
+	if len(goLost) > 0 {
+		sort.Strings(goLost)
+		facts = append(facts, []string{"R", sha8(strings.Join(goLost, ",")), ""})
 	}
 	if len(goNew) > 0 {
 		sort.Strings(goNew)
-		facts = append(facts, "G:"+sha8(strings.Join(goNew, ",")))
+		facts = append(facts, []string{"G", sha8(strings.Join(goNew, ",")), ""})
 	}
-	sort.Strings(facts)
+	sort.Slice(facts, func(i, j int) bool { return strings.Join(facts[i], ":") < strings.Join(facts[j], ":") })
 	return facts
 }
 
@@ -195,18 +211,24 @@ func setup() *zygo.Zlisp {
 	return env
 }
 
-// observe runs text in a fresh interpreter and captures stdout.
-func observe(text string) (obs any, pre []string) {
-	if goBase == nil {
-		e := setup() // what the host registers is registered from here on
-		e.Close()
-		goBase = map[string]bool{}
-		for name, rt := range zygo.GoStructRegistry.Userdef {
-			if goRegistered(rt) {
-				goBase[name] = true
-			}
+// hostInit: what the host registers from Go is registered once, before any interpreter runs a script.
+func hostInit() {
+	if goBase != nil {
+		return
+	}
+	e := setup()
+	e.Close()
+	goBase = map[string]bool{}
+	for name, rt := range zygo.GoStructRegistry.Userdef {
+		if goRegistered(rt) {
+			goBase[name] = true
 		}
 	}
+}
+
+// observe runs text in a fresh interpreter and captures stdout.
+func observe(text string) (obs any, pre [][]string) {
+	hostInit()
 	pre = preFacts(text)
 	env := setup()
 	defer env.Close()
@@ -445,18 +467,22 @@ func determErrcalls(seed int64, thorough bool) (out []string) {
 			continue
 		}
 		idx++
-		a := errcallPool[idx%len(errcallPool)]
+		if thorough {
+			// every kind of value in every one of the first three positions
+			for _, v := range []string{"(hash a: 1)", "[1 2]", "(list 1 2)", "(quote s)", "(fn [x] x)", "(hash k: [1 (hash z: 2)])"} {
+				out = append(out, fmt.Sprintf("(%s %s)\n", name, v), fmt.Sprintf("(%s 7 %s)\n", name, v),
+					fmt.Sprintf("(%s \"str\" (quote s) %s)\n", name, v))
+			}
+			continue
+		}
+		a := errcallPool[(idx+int(seed%97))%len(errcallPool)]
 		b := errcallPool[(idx/3+5)%len(errcallPool)]
 		shapes := []string{
 			fmt.Sprintf("(%s %s)\n", name, a),
 			fmt.Sprintf("(%s %s %s)\n", name, b, a),
 			fmt.Sprintf("(%s %s %s %s)\n", name, a, a, b),
 		}
-		for si, s := range shapes {
-			if thorough || hashSel(seed, idx*4+si, 1, 4) {
-				out = append(out, s)
-			}
-		}
+		out = append(out, shapes[int(uint64(seed)+uint64(idx))%len(shapes)])
 	}
 	for _, v := range errcallPool {
 		out = append(out, fmt.Sprintf("(%s 1)\n", v), fmt.Sprintf("(def v %s)\n(v (hash a: 1) [2])\n", v))
@@ -580,19 +606,42 @@ func dumpWalks(env *zygo.Zlisp) []any {
 		}
 		walks = append(walks, map[string]any{"name": "record:" + w.ctor, "entries": entries})
 	}
-	// scope of a package: member (in name order) -> identity class of its value
-	walks = append(walks, map[string]any{"name": "scope:o", "entries": []any{
-		[]any{"A", "pkg-i"}, []any{"B", "pkg-i"}, []any{"C", "pkg-j"}, []any{"D", "pkg-j"}, []any{"Q", "<nil>"}}})
+	// scope of a package: member (in name order) -> identity class of its value (the first member it is equal to)
+	members := []string{"A", "B", "C", "D", "Q"}
+	quiet(func() {
+		evalSafe(env, "(def walkpk (package \"o\" { A := (package \"i\" { X := 1 }); B := A; C := (package \"j\" { Y := 2 }); D := C; Q := 4 }))\n")
+	})
+	scope := []any{}
+	vals := map[string]zygo.Sexp{}
+	for i, m := range members {
+		cls := "<nil>"
+		var o outcome
+		quiet(func() { o = evalSafe(env, "(* walkpk."+m+")\n") }) // (* a.b) resolves the path
+		if o.Kind == "val" {
+			switch o.Val.(type) {
+			case *zygo.Stack, *zygo.SexpHash, *zygo.SexpFunction, *zygo.SexpArray:
+				vals[m] = o.Val // a value the printer remembers by identity
+			}
+		}
+		for _, m0 := range members[:i+1] {
+			if vals[m] != nil && vals[m] == vals[m0] {
+				cls = "same-as-" + m0
+				break
+			}
+		}
+		scope = append(scope, []any{m, cls})
+	}
+	walks = append(walks, map[string]any{"name": "scope:o", "entries": scope})
 	return walks
 }
 
 // ---------------------------------------------------------------- workers
 
 type workerOut struct {
-	ID   string     `json:"id"`
-	Obs  []any      `json:"obs"`
-	Runs []string   `json:"runs"`
-	Pre  [][]string `json:"pre"`
+	ID   string       `json:"id"`
+	Obs  []any        `json:"obs"`
+	Runs []string     `json:"runs"`
+	Pre  [][][]string `json:"pre"`
 }
 
 func determWorker(c *common, mode string, order, poison int) int {
@@ -620,6 +669,7 @@ func determWorker(c *common, mode string, order, poison int) int {
 	if mode == "proc" {
 		label = fmt.Sprintf("proc-o%d", order)
 	}
+	hostInit()
 	if poison > 0 {
 		label = fmt.Sprintf("poison%d", poison)
 		runOthers([]string{poisons[poison]}, 0)
